@@ -100,10 +100,11 @@ def gen_case(rng):
         t_ref, trk = False, "false"
     rv = rvv * ru
     scalar = False
-    if n == 1 and not cov and nf_kind == "none" and rng.random() < 0.5:
-        # bare scalars instead of length-1 arrays
+    if n == 1 and not cov and nf_kind == "none" and tkind == "float" and rng.random() < 0.5:
+        # bare scalars instead of length-1 arrays (a scalar *Time* is refused loudly by the constructor, which
+        # documents "array of measurement times"; not part of the property)
         scalar = True
-        t_in = t_in[0] if tkind != "float" else float(tt[0])
+        t_in = float(tt[0])
         rv = rv[0]
         err = err[0]
     cls = (n > 1, tkind, str(ru), str(eu), cov, nf_kind, trk, clean, dup, scalar)
